@@ -169,10 +169,12 @@ def _tame_prod(cells, axis, rng):
     lines = [[(i, j) for i in range(nr)] for j in range(nc)] if axis == 0 else [[(i, j) for j in range(nc)] for i in range(nr)]
     for line in lines:
         acc = 1
+        # a str cell in the line: str * int is repetition (a '<U5' cell times 2**31 is a 10 GB string) -> keep the ints tiny
+        bound = 4 if any(isinstance(cells[i][j], str) for i, j in line) else 2 ** 62
         for i, j in line:
             v = cells[i][j]
             if isinstance(v, int) and not isinstance(v, bool):
-                if acc * max(abs(v), 1) >= 2 ** 62:
+                if acc * max(abs(v), 1) >= bound:
                     v = cells[i][j] = rng.choice([0, 1]) if v >= 0 else -1
                 acc *= max(abs(v), 1)
     return cells
@@ -205,12 +207,28 @@ def _pick_layouts(dtypes, rng, limit):
     return keep + rng.sample(rest, limit - len(keep))
 
 
+_MEMORY_CAP = 8 * 2 ** 30
+
+
+def _cap_memory():
+    """safety net: an object-dtype reduction can build arbitrarily large Python objects (str repetition, big ints); an
+    address-space cap turns a runaway allocation into a MemoryError outcome instead of starving the machine."""
+    try:
+        import resource
+        soft, hard = resource.getrlimit(resource.RLIMIT_AS)
+        if soft == resource.RLIM_INFINITY or soft > _MEMORY_CAP:
+            resource.setrlimit(resource.RLIMIT_AS, (_MEMORY_CAP, hard))
+    except Exception:
+        pass
+
+
 def generate(ctx):
+    _cap_memory()
     rng = ctx.rng
     ops = list(OPS)
     rng.shuffle(ops)
     limit = 6 if ctx.tier == 'quick' else 12
-    n = ctx.n(14000, 200000)
+    n = ctx.n(24000, 240000)
     for i in range(n):
         op = ops[i % len(ops)]
         nr = nc = None
@@ -670,6 +688,7 @@ def _uninitialised_probe(f, fn, skipna):
 
 
 def check(case, ctx):
+    _cap_memory()
     spec, op = case['spec'], case['op']
     fn, axis, skipna, ddof = op
     nr, nc = spec.shape
